@@ -200,6 +200,14 @@ def one_program(seed, i):
                 except Exception as e:
                     results["eager"] = ("fail", f"{type(e).__name__}: {str(e)[:600]}")
             _judge(results, p, res, hit, variant, k)
+    # every execution form agrees with the others and only the numpy reading differs: with discontinuous float ops
+    # (Floor, %, comparisons feeding if/Where) a last-bit rounding difference between numpy and ORT flips a branch on a
+    # particular input.  A genuine difference in meaning shows on most inputs: demand it on >= 2 of the inputs tried.
+    odd_np = [v for v in res["viol"] if v["key"].startswith("odd=numpy")]
+    if odd_np and len({v["detail"].get("input") for v in odd_np}) < 2:
+        res["viol"] = [v for v in res["viol"] if not v["key"].startswith("odd=numpy")]
+        res["pending"] = [q for q in res.get("pending", []) if q[0] != "numpy"]
+        hit("numpy_odd_on_single_input_dropped")
     _minimise(res, p, seed, i, hit)
     res.pop("_ctx", None)
     res.pop("pending", None)
@@ -341,7 +349,7 @@ def _judge(results, p, res, hit, variant, k):
         kind, d = differ[ws[0]]
         res["viol"].append({"key": f"odd=numpy;kind={kind};feat={feat}",
                             "what": f"eager/graph agree with each other but not with the numpy reading [{variant} attrs, input {k}]: {d}",
-                            "detail": {"src": p.src, "features": sorted(p.features)}})
+                            "detail": {"src": p.src, "features": sorted(p.features), "input": k}})
         return
     hit("split_inconclusive")
 
